@@ -117,6 +117,11 @@ def run_call(call, tmp, idx):
                         q = m.split(":", 1)[1]
                         rs.append([m, [g.count(q, match_nodes=True), g.count(q, match_nodes=True, match_some_fg=True),
                                        g.count(q, match_nodes=True, match_all_fg=True)]])
+                    elif m.startswith("fgcount:"):
+                        q = m.split(":", 1)[1]
+                        rs.append([m, g.count_functional_groups(q.split("|") if "|" in q else q)])
+                    elif m.startswith("proton:"):
+                        rs.append([m, g.count_protonation(m.split(":", 1)[1] == "1")])
                     elif m == "save_dot":
                         path = os.path.join(tmp, f"h_{os.getpid()}_{idx}.dot")
                         g.save_dot(path)
